@@ -414,6 +414,9 @@ func (p *c13Primary) write(lines [][]string) (ref []c13Entry, rest [][]string, s
 	snap()
 	for ; i < len(lines); i++ {
 		l := lines[i]
+		if l[0] == "o" {
+			continue // left over from a block the shrinker cut
+		}
 		if l[0] != "w" {
 			break
 		}
@@ -441,6 +444,12 @@ func (p *c13Primary) write(lines [][]string) (ref []c13Entry, rest [][]string, s
 			seq++
 		case "batch":
 			n, _ := strconv.Atoi(l[2])
+			// a shrunk case may have lost lines of the block: take the "o" lines that are there
+			m := 0
+			for m < n && i+1+m < len(lines) && lines[i+1+m][0] == "o" {
+				m++
+			}
+			n = m
 			var es []*wal.Entry
 			for j := 1; j <= n; j++ {
 				o := lines[i+j]
@@ -665,6 +674,11 @@ func runC13(c *Case, out func(string)) {
 			deliver(d, es)
 		case "raw":
 			n, _ := strconv.Atoi(l[1])
+			m := 0
+			for m < n && i+1+m < len(evs) && evs[i+1+m][0] == "e" && len(evs[i+1+m]) == 3 {
+				m++
+			}
+			n = m
 			d := &c13Deliv{form: "raw", failat: c13Failat(l[2:])}
 			var es []*rpb.WALEntry
 			for j := 1; j <= n; j++ {
@@ -690,6 +704,8 @@ func runC13(c *Case, out func(string)) {
 			if ap.GetLastAcknowledged() > ap.GetMaxApplied() {
 				o.fail("", "acknowledged beyond applied")
 			}
+		case "o", "e":
+			// left over from a block the shrinker cut: ignored (the model driver does the same)
 		default:
 			out("IMPL-ERROR bad line " + strings.Join(l, " "))
 			return
